@@ -130,6 +130,10 @@ def operand(r, minlevel, depth, positive=False):
     if depth <= 0 or r.random() < 0.55:
         return atom(r, positive)
     e = gen_expr(r, r.choice(CLASSES), depth - 1, positive)
+    if e[0] in ("un", "cast"):
+        # the OKL expression parser cannot read a prefix operator right after a binary one that also has a
+        # unary spelling (`1 & ~b`: "Unable to form an expression"; not a C17-C19 matter): parenthesise
+        return ("P", e)
     return e if level(e) >= minlevel else ("P", e)
 
 
